@@ -205,7 +205,10 @@ Fixpoint listify (t : tree) : tree :=
   end.
 
 (* the conversion works on a shallow copy of the store: values of nested dicts are converted in
-   place, so after an export the live configuration itself has changed below the first level *)
+   place, so after an export the live configuration itself has changed below the first level.
+   (C18 does not speak about this; property C19 does and proposes that _array_or_tuple_to_list build a
+   copy.  Either way the documents written are [listify]; the check probes which of the two the code
+   does and uses OYamlFile/OYamlText or OYamlFilePure/OYamlTextPure accordingly.) *)
 Definition store_after_export (t : tree) : tree :=
   match t with
   | Leaf v => Leaf v
@@ -368,6 +371,26 @@ Definition text_roundtrip (c : config) : result loaded :=
   from_yaml_stream (list ydoc) loadI (to_yaml_text (list ydoc) dumpI c).
 Definition text_roundtrip_v0 (c : config) : result loaded :=
   from_yaml_stream_v0 (list ydoc) loadI (to_yaml_text (list ydoc) dumpI c).
+
+(* to_yaml_file and from_yaml_file end with a log line that formats the configuration (__str__).  Before
+   the repair __str__ called .keys() on the entries named imf_opts / envelope_opts / extrema_opts whatever
+   they held, so a configuration with one of them set to None (the functions' own default) - or to any
+   non-dict - could be neither saved to nor loaded from a file: AttributeError after the file was written *)
+Definition LOWER_LEVEL : list string := ["imf_opts"; "envelope_opts"; "extrema_opts"]%string.
+
+Definition str_ok_v0 (s : tree) : bool :=
+  match s with
+  | Node kids => forallb (fun kt => match kt with
+                                    | (k, Leaf _) => negb (existsb (String.eqb k) LOWER_LEVEL)
+                                    | (_, Node _) => true
+                                    end) kids
+  | Leaf _ => false
+  end.
+
+Definition file_roundtrip_v0 (c : config) : result loaded :=
+  if str_ok_v0 (cstore c)
+  then bind (file_roundtrip c) (fun r => if str_ok_v0 (doc_tree (snd r)) then Ok r else Err ENotMap)
+  else Err ENotMap.
 
 (* ------------------------------------------------------------------ effective options of a call
    Tables (generated from the source by harness/gen_tables.py, see gen/Gen_Defaults.v):
@@ -534,6 +557,7 @@ Inductive op :=
 | OGet (key : string) | OSet (key : string) (v : tree) | ODel (key : string)        (* by key path *)
 | NGet (ks : list string) | NSet (ks : list string) (v : tree) | NDel (ks : list string) (* nested *)
 | OYamlFile | OYamlText | OYamlTextV0
+| OYamlFilePure | OYamlTextPure      (* the same round trips when the export works on a full copy *)
 | OKeys (key : string).
 
 (* one edit: (observation, configuration afterwards); a failed write leaves the store alone *)
@@ -554,6 +578,8 @@ Definition step (c : config) (o : op) : list Z * config :=
   | OYamlFile => (enc_loaded (file_roundtrip c), exported)
   | OYamlText => (enc_loaded (text_roundtrip c), exported)
   | OYamlTextV0 => (enc_loaded (text_roundtrip_v0 c), exported)
+  | OYamlFilePure => (enc_loaded (file_roundtrip c), c)
+  | OYamlTextPure => (enc_loaded (text_roundtrip c), c)
   | OKeys k => (match keytransform k with
                 | Ok ps => 0 :: Z.of_nat (List.length ps) :: List.concat (map enc_str ps)
                 | Err e => [err_code e]
